@@ -290,8 +290,21 @@ fn programs() -> Vec<String> {
         }
         cur = next;
     }
-    // comments and non-ASCII text are ignored
+    // comments and non-ASCII text are ignored: every balanced program of <= 4 commands with a
+    // multi-byte character (2, 3 and 4 bytes in UTF-8) inserted at every position
     out.push("+a+ü+[ - ]x.".to_string());
+    let short: Vec<String> = out.iter().filter(|p| p.len() >= 2 && p.len() <= 4).cloned().collect();
+    for p in &short {
+        for (k, ins) in ["é", "€", "😀"].iter().enumerate() {
+            for at in 0..=p.len() {
+                if (at + k) % 2 == 0 || p.contains('[') {
+                    let mut q = p.clone();
+                    q.insert_str(at, ins);
+                    out.push(q);
+                }
+            }
+        }
+    }
     // long runs of one command, with the high bits observed
     for n in [255usize, 256, 257, 511, 512, 65535, 65536, 65537] {
         out.push(format!("{}[[-]>+<]>.", "+".repeat(n)));
